@@ -90,6 +90,8 @@ def check(case):
         check_cli(res, case)
     elif kind == "runner":
         check_runner(res, case)
+    elif kind == "abort":
+        check_abort(res, case)
     else:
         raise ValueError("unknown case kind %r" % kind)
     return res
@@ -237,6 +239,38 @@ def check_cli(res, case):
                  % (out.returncode, ref.failed, ref.reasons[:2], out.stdout[-600:]))
 
 
+def check_abort(res, case):
+    """The run is aborted by user code (context.abort() in a step or hook) or by a
+    KeyboardInterrupt that escapes from a hook: the run must report failure, whatever else
+    happens (every executed step passes)."""
+    prog = copy.deepcopy(case["program"])
+    normalize(prog)
+    base = refmodel.simulate(prog)
+    how = case["how"]
+    n = len(base.hooks)
+    if how in ("hook-abort", "hook-interrupt"):
+        if n == 0:
+            res.label("abort:not-placeable")
+            return
+        k = case["at"] % n
+        prog["hook_faults"] = [[k, "abort" if how == "hook-abort" else "KeyboardInterrupt"]]
+        res.label("abort:%s:%s" % (how, base.hooks[k][0]))
+    else:
+        if not base.aborted:
+            res.label("abort:not-placeable")    # the aborting step is not executed (deselected / dry-run)
+            return
+        res.label("abort:step")
+    run = runcheck.run_program(prog)
+    res.nontrivial = len(runcheck.instances(prog)) >= 2
+    if isinstance(run.escaped, KeyboardInterrupt) and how == "hook-interrupt":
+        # an interrupt in before_all / after_all leaves run() as KeyboardInterrupt: no success is reported
+        res.label("abort:interrupt-escaped")
+    elif run.escaped is not None:
+        res.fail("C01.verdict.escape", "exception escaped run(): %r" % (run.escaped,))
+    elif not run.failed:
+        res.fail("C01.verdict.false-green", "the run was aborted (%s) but reports success" % how)
+
+
 def check_runner(res, case):
     """Standard Runner on a scratch project (paths, environment.py, steps directory, file parsing)."""
     from .. import disk
@@ -293,6 +327,22 @@ def meta_case_st():
                      st.integers(0, 5000), gen.tags_st(1, ["a", "b"]))
 
 
+@st.composite
+def abort_case_st(draw):
+    """All steps pass; the run is aborted by a step (context.abort()), by a hook (context.abort())
+    or by a KeyboardInterrupt raised in a hook."""
+    prog = draw(gen.program_st(faults=False, max_features=2, outcomes=["pass"],
+                               cfg=gen.cfg_st(flags=("stop",), p_tags=0.3)))
+    how = draw(st.sampled_from(["step", "hook-abort", "hook-abort", "hook-interrupt"]))
+    if how == "step":
+        steps = [s for f in prog["features"] for lst in _step_lists(f) for s in lst if not s["o"].startswith("<")]
+        if steps:
+            victim = steps[draw(st.integers(0, len(steps) - 1))]
+            victim["o"] = "abort"
+            victim.pop("a", None)
+    return {"kind": "abort", "program": prog, "how": how, "at": draw(st.integers(0, 10000))}
+
+
 def explore(rec):
     quick = rec.tier == "quick"
     rec.enum("core-enumeration", core_enumeration())
@@ -302,6 +352,7 @@ def explore(rec):
             16 if quick else 320)
     rec.hyp("runner-route", run_case_st(max_features=2, cfg=gen.cfg_st(flags=("stop", "dry_run", "wip_flag"))).map(
         lambda c: dict(c, kind="runner")), 1500 if quick else 30000)
+    rec.hyp("aborted-runs", abort_case_st(), 1500 if quick else 30000)
     rec.hyp("wip-flag", run_case_st(max_features=2, cfg=gen.cfg_st(flags=("wip_flag", "wip_flag", "dry_run"))),
             800 if quick else 15000)
 
@@ -309,7 +360,8 @@ def explore(rec):
 def required_labels(tier):
     return ["verdict:failed", "verdict:passed", "flag:stop", "flag:dry_run", "fault:hook",
             "fault:cleanup:raising", "has-deselected", "cut-short", "has-rule", "has-outline-row",
-            "meta:add_pass", "meta:add_deselected", "meta:permute", "cli", "runner-route", "flag:wip_flag"] + \
+            "meta:add_pass", "meta:add_deselected", "meta:permute", "cli", "runner-route", "flag:wip_flag", "abort:step",
+            "abort:hook-abort:before_scenario", "abort:hook-interrupt:before_scenario"] + \
            ["outcome:" + o for o in OUTCOMES]
 
 
